@@ -18,6 +18,7 @@ import re
 from pathlib import Path
 
 import lib
+import c09_nested
 
 PROP = "C09"
 UN = 0  # the "unbound" pseudo definition
@@ -1095,8 +1096,9 @@ def run(tier: str, replay: str | None = None):
     origin = []
     if replay:
         r = json.loads(Path(replay).read_text())
-        blocks.append(to_block(r["input"]["skeleton"]))
-        origin.append("replay")
+        if "skeleton" in r["input"]:
+            blocks.append(to_block(r["input"]["skeleton"]))
+            origin.append("replay")
     else:
         for b in load_corpus():
             blocks.append(b)
@@ -1276,10 +1278,36 @@ def run(tier: str, replay: str | None = None):
                 else:
                     failing.append((i, u, "upper bound: a reported definition reaches the use along no liberal path", sorted(got), {"liberal": sorted(l_), "extra": sorted(got - l_)}))
 
+    # ---- nested functions with nonlocal / global declarations (oracle stream, see c09_nested.py)
+    nested_progs = []
+    if replay:
+        r_in = json.loads(Path(replay).read_text())["input"]
+        if "nested_program" in r_in:
+            nested_progs = [c09_nested.rename(r_in["nested_program"], 0)]
+    else:
+        cp = lib.VERIF / "harness" / "corpus" / "C09_nested.json"
+        if cp.exists():
+            for k, pr in enumerate(json.loads(cp.read_text())):
+                nested_progs.append(c09_nested.rename(pr, len(nested_progs)))
+        n_nested = 110 if tier == "quick" else 1500
+        while len(nested_progs) < n_nested:
+            pr = c09_nested.gen_program(rng, len(nested_progs))
+            if c09_nested.valid(pr, len(nested_progs)):
+                nested_progs.append(pr)
+    nested_fail, nested_known, nested_uses, nested_src = c09_nested.run_stream(nested_progs, impl_run) if nested_progs else ([], {}, 0, [])
+    n_uses += nested_uses
+    hist["verdict"]["use in the nested-function / nonlocal / global stream"] = nested_uses
+    for fid, n in nested_known.items():
+        known_seen[fid] += n
+    for (i, ln, what, observed, expected) in nested_fail[:6]:
+        rep.violation({"kind": "failing-input", "input": {"nested_program": c09_nested.unname(nested_progs[i], i), "source": nested_src[i], "use_line": ln},
+                       "what": what, "observed": observed, "expected": expected, "how_to_run": "./check C09 --replay <this file>",
+                       "oracle": "Python's symtable (which variable a name denotes) and execution under CPython for every script of the opaque conditions (harness/c09_nested.py)"})
+
     for (i, u, what, observed, expected) in failing[:10]:
         rep.violation({"kind": "failing-input", "input": payload(i, u, {}), "what": what, "observed": observed, "expected": expected,
                        "how_to_run": "./check C09 --replay <this file>", "oracle": "independent strict/liberal reaching definitions (class Flow in harness/c09.py)"})
-    found_input = bool(failing)
+    found_input = bool(failing) or bool(nested_fail)
     if corr_mismatch and not found_input:
         i, u, got, mset = corr_mismatch[0]
         rep.violation({"kind": "broken-correspondence", "correspondence": "Scopes.Analysis.analyse vs NameCheckVisitor (reveal_type, undefined_name, possibly_undefined_name)",
@@ -1291,7 +1319,7 @@ def run(tier: str, replay: str | None = None):
     for m in spec_errors[:5]:
         rep.harness_error("spec validation: " + repr(m) + " source=" + json.dumps(funcs[m[1]]))
     for fid, n in sorted(known_seen.items()):
-        text = LOWER_FINDINGS.get(fid) or UPPER_FINDING[1]
+        text = LOWER_FINDINGS.get(fid) or c09_nested.FINDINGS.get(fid) or UPPER_FINDING[1]
         rep.known(fid, f"{text} [{n} uses in this run]")
 
     samples = []
@@ -1308,7 +1336,8 @@ def run(tier: str, replay: str | None = None):
         traces_validated_against_impl=n_uses - len(corr_mismatch),
         input_distribution={k: dict(v) for k, v in hist.items()},
         correspondence_mismatches=len(corr_mismatch),
-        property_failures=len(failing),
+        property_failures=len(failing) + len(nested_fail),
+        nested_stream={"programs": len(nested_progs), "uses": nested_uses, "known": dict(nested_known)},
         known_finding_uses=dict(known_seen),
         spec_validation={"executed_pairs": exec_pairs_total, "executed_outside_strict_or_liberal": len(spec_errors),
                          "strict_pairs_checked": strict_total, "strict_pairs_realised_by_execution": exec_strict_realised},
